@@ -349,6 +349,26 @@ Definition effective (s : state) : eff :=
           (c_target c)
   end.
 
+(** ** the exact difference between two effective configurations
+    (specification of what one accepted load must announce; never used by
+    [handle_diffs]) *)
+Definition entry_eqb (a b : entry) : bool :=
+  tval_eqb (fst a) (fst b) && rval_eqb (snd a) (snd b).
+
+Definition eff_diff (e1 e2 : eff) : list call :=
+  flat_map (fun ke =>
+              match assoc (fst ke) e2 with
+              | None => [HDelete (fst ke)]
+              | Some e' =>
+                  if entry_eqb (snd ke) e' then []
+                  else [HUpdate (fst ke) (snd e') (fst e')]
+              end) e1
+  ++ flat_map (fun ke =>
+                 match assoc (fst ke) e1 with
+                 | None => [HAdd (fst ke) (snd (snd ke)) (fst (snd ke))]
+                 | Some _ => []
+                 end) e2.
+
 End Model.
 
 Arguments target : clear implicits.
